@@ -133,6 +133,7 @@ pub async fn run(cfg: RunCfg) -> RunResult {
         }
     }
 
+    if std::env::var("VERIF_TIMING").is_ok() { eprintln!("t init {:?}", t0.elapsed()); }
     let nwriters = rng.range(2, 3) as u32;
     let nreaders = rng.range(1, 2) as u32;
     let attempts = rng.range(1, 3) as u32;
@@ -166,7 +167,9 @@ pub async fn run(cfg: RunCfg) -> RunResult {
         };
         sc.amb_classes = vec![PathClass::Manifest, PathClass::ManifestStaging];
     }
+    if std::env::var("VERIF_TIMING").is_ok() { eprintln!("t spawn {:?}", t0.elapsed()); }
     let out = drive(&w, &mut rng, &sc, &actors, &mut tasks, cfg.trace).await;
+    if std::env::var("VERIF_TIMING").is_ok() { eprintln!("t drive {:?}", t0.elapsed()); }
     w.set_gated(false);
     res.interleaving_hash = out.hash;
     res.nontrivial = out.overlapped || out.faults_fired > 0;
